@@ -277,6 +277,9 @@ class WorkCalendarDiv(IWorkCalendar):
                 continue
             if units is None:
                 units = c_units
+            elif c_units == 0:
+                # A date on which the divisor calendar offers nothing is not a working date of the quotient
+                return None
             else:
                 units /= c_units
         return units
